@@ -7,14 +7,14 @@ from checks import c09
 
 PID = 'C11'
 RULE = ('Hypothesis: framing rtu / ascii / binary; garbage = 1..4 pieces out of {random bytes 1..40, long random bytes up to '
-        '300, a valid frame with bits flipped, a truncated valid frame (abandoned partial frame), a valid frame for a foreign '
+        '300, a noise burst of 300..3000 bytes (random / one repeated byte / hex characters / an opened frame without any end delimiter), a valid frame with bits flipped, a truncated valid frame (abandoned partial frame), a valid frame for a foreign '
         'unit, bare delimiter characters (: { } CR LF)} delivered in arbitrary chunks, optionally sharing its last read with '
         'the first valid frames; then 70..110 valid frames (Write Single Register, value = running index, so every PDU is '
         'distinct), k=1..3 per read. Receivers: the framer driven like the serial handler does (catch, resetFrame, continue), '
         'the real sync serial request handler, and the asyncio / Twisted stream handlers with the serial framer. Oracle '
         '(bounded recovery as the property states): with e = offset where the garbage ends and L = two maximum-size frames '
         '(rtu 512, ascii 1026, binary 1036 bytes), every valid frame that starts at or after e+L is delivered (server: '
-        'answered) exactly once and in order, and len(framer._buffer) after every read stays <= L + that read. Frames inside '
+        'answered) exactly once and in order, and len(framer._buffer) after every read that ends beyond e+L stays <= L + that read. Frames inside '
         'the window may be lost. Non-trivial: garbage non-empty and not itself a clean valid frame for the hosted unit; '
         'distinct by SHA-1.')
 ASSUMPTIONS = ['RTU: valid frames arrive whole within a read (k frames per read), as frames separated by silent intervals do; on the delimited framings (ascii, binary) the valid traffic is also delivered in arbitrary pieces',
@@ -28,7 +28,24 @@ UID = 0x11
 
 @st.composite
 def _piece(draw, framing):
-    kind = draw(st.sampled_from(['rand', 'rand', 'long', 'flipped', 'truncated', 'foreign', 'delims', 'huge-header', 'huge-header', 'badbody']))
+    kind = draw(st.sampled_from(['rand', 'rand', 'long', 'flipped', 'truncated', 'foreign', 'delims', 'huge-header', 'huge-header', 'badbody', 'burst']))
+    if kind == 'burst':
+        # a long noise burst (a device talking at the wrong speed for a while): 300..3000 bytes, optionally opened by a
+        # start delimiter and free of end delimiters, so that a delimited receiver sees one endless frame
+        n = draw(st.one_of(st.integers(300, 700), st.integers(300, 3000)))
+        flavour = draw(st.sampled_from(['binary', 'open-frame', 'hexish', 'one-byte']))
+        if flavour == 'binary':
+            body = draw(st.binary(min_size=16, max_size=64))
+        elif flavour == 'one-byte':
+            body = bytes([draw(st.sampled_from([0x00, 0xFF, 0x55, 0x3A, 0x7B, 0x30, UID]))])
+        elif flavour == 'hexish':
+            body = draw(st.lists(st.sampled_from(list(b'0123456789ABCDEFabcdef:')), min_size=8, max_size=40).map(bytes))
+        else:
+            body = bytes(b for b in draw(st.binary(min_size=16, max_size=64)) if b not in (0x0D, 0x0A, 0x7D)) or b'\x01'
+        noise = (body * (n // len(body) + 1))[:n]
+        if flavour in ('open-frame', 'hexish'):
+            noise = {'ascii': b':', 'binary': b'{', 'rtu': bytes([UID, 0x10])}[framing] + noise
+        return noise
     if kind == 'badbody':
         # correct checksum around a PDU the decoder chokes on (quantity larger than the data that follows)
         n = draw(st.integers(2, 9))
@@ -125,12 +142,15 @@ def run_case(case):
         proxy = pm.RecordingDecoder(pm.decoder('req'))
         fr = pm.framer_class(framing)(proxy)
         maxbuf = 0
+        fed = 0
         for r in reads:
             try:
                 fr.processIncomingPacket(r, lambda m: None, [UID], single=False)
             except Exception:
                 fr.resetFrame()
-            if len(fr._buffer) > L + len(r):
+            fed += len(r)
+            # "stays bounded while valid frames keep arriving": judged once a recovery window of valid traffic has arrived
+            if fed >= e + L and len(fr._buffer) > L + len(r):
                 discs.append(Disc('backlog-unbounded', '%s: %d bytes buffered after a read of %d (bound %d)' % (framing, len(fr._buffer), len(r), L + len(r))))
                 break
             maxbuf = max(maxbuf, len(fr._buffer))
